@@ -17,6 +17,13 @@
 //!   wfill <lo> <hi>             `w ins:t:i<n>:a=t66` for n in lo..=hi, one API transaction each
 //!   pw <stmts>                  transaction on the peer database; its change list is kept (as a broadcast would carry it)
 //!   r <v,…>                     `process_multiple_changes` with the peer's versions as complete `ChangeV1`s, in this order
+//!   rc <v> <chunk,…>            chunks (`p<k>of<n>` | `lo-hi` | `all`) of ONE peer version as `Changeset::Full { seqs, last_seq }`
+//!                               in one `process_multiple_changes` call.  Incomplete chunks are buffered by the real code; when
+//!                               the version is fully buffered the REAL `apply_fully_buffered_changes_loop` (spawned like
+//!                               run_root.rs does, with `clear_buffered_meta_loop`) runs `process_fully_buffered_changes`, which
+//!                               notifies through `match_changes_from_db_version`.  The op waits (deadline, no sleep) until the
+//!                               span of `process_fully_buffered_changes` has closed, i.e. the function has returned, and checks
+//!                               the real bookkeeping (`partials`, `contains_version`) against what it expects
 //!   force                       `thr` × `match_changes([sentinel])` → the threshold flush; answers the events so far
 //!   drain                       one `match_changes([sentinel])`, waits for the sentinel's event (the 600 ms deadline
 //!                               while the loop still buffers); answers the events so far
@@ -33,6 +40,7 @@ use std::time::{Duration, Instant};
 
 use axum::Extension;
 use klukai_agent::agent::util::process_multiple_changes;
+use klukai_agent::agent::verif_hooks::{apply_fully_buffered_changes_loop, clear_buffered_meta_loop};
 use klukai_agent::agent::{AgentOptions, setup};
 use klukai_agent::api::public::update::{SharedUpdateBroadcastCache, upsert_update};
 use klukai_agent::api::public::{TimeoutParams, api_v1_db_schema, api_v1_transactions};
@@ -81,6 +89,41 @@ fn consts() -> Consts {
 }
 
 // ------------------------------------------------------------------------------------------------
+// observable completion of the background apply: the `#[tracing::instrument]` span of
+// `process_fully_buffered_changes` closes when the function has returned (after its match calls)
+// ------------------------------------------------------------------------------------------------
+
+static APPLIES_DONE: std::sync::atomic::AtomicU64 = std::sync::atomic::AtomicU64::new(0);
+
+struct ApplyWatch;
+
+impl<S> tracing_subscriber::Layer<S> for ApplyWatch
+where
+    S: tracing::Subscriber + for<'a> tracing_subscriber::registry::LookupSpan<'a>,
+{
+    fn on_close(&self, id: tracing::span::Id, ctx: tracing_subscriber::layer::Context<'_, S>) {
+        if ctx.span(&id).is_some_and(|sp| sp.name() == "process_fully_buffered_changes") {
+            APPLIES_DONE.fetch_add(1, std::sync::atomic::Ordering::SeqCst);
+        }
+    }
+}
+
+fn install_watch() {
+    use tracing_subscriber::prelude::*;
+    static ONCE: std::sync::OnceLock<()> = std::sync::OnceLock::new();
+    ONCE.get_or_init(|| {
+        let filter = tracing_subscriber::filter::Targets::new().with_target("klukai_agent::agent::util", tracing::Level::INFO);
+        // HX_LOG=<filter> additionally prints the node's log (debugging aid)
+        let fmt = std::env::var("HX_LOG").ok().map(|f| tracing_subscriber::fmt::layer().with_writer(std::io::stderr).with_filter(tracing_subscriber::EnvFilter::new(f)));
+        tracing_subscriber::registry().with(ApplyWatch.with_filter(filter)).with(fmt).try_init().expect("tracing subscriber for the apply watch");
+    });
+}
+
+fn applies_done() -> u64 {
+    APPLIES_DONE.load(std::sync::atomic::Ordering::SeqCst)
+}
+
+// ------------------------------------------------------------------------------------------------
 // the world of one case
 // ------------------------------------------------------------------------------------------------
 
@@ -123,6 +166,10 @@ struct World {
     held: BTreeMap<u64, Held>,
     pending: BTreeSet<u64>,
     peer_log: BTreeMap<u64, Held>,
+    /// peer versions this node knows in whole (applied or cleared), and the seq ranges of the others that were
+    /// handed over as chunks — the harness's own expectation, cross-checked with the real bookkeeping
+    peer_known: BTreeSet<u64>,
+    peer_chunks: BTreeMap<u64, Vec<(u64, u64)>>,
     drains: i64,
     /// every real (non-sentinel) event received so far: (pk token, 'u' | 'd')
     events: Vec<(String, char)>,
@@ -175,6 +222,34 @@ fn to_param(v: &rusqlite::types::Value) -> SqliteParam {
     }
 }
 
+enum Chunk {
+    Bad,
+    Empty,
+    Piece(u64, u64),
+}
+
+/// `all` | `p<k>of<n>` (k-th of n contiguous pieces of 0..=last) | `lo-hi` (inside 0..=last)
+fn chunk_spec(spec: &str, last: u64) -> Chunk {
+    if spec == "all" {
+        return Chunk::Piece(0, last);
+    }
+    if let Some(rest) = spec.strip_prefix('p') {
+        let Some((k, n)) = rest.split_once("of") else { return Chunk::Bad };
+        let (Ok(k), Ok(n)) = (k.parse::<u64>(), n.parse::<u64>()) else { return Chunk::Bad };
+        if n == 0 || k >= n {
+            return Chunk::Empty;
+        }
+        let lo = k * (last + 1) / n;
+        let hi1 = (k + 1) * (last + 1) / n;
+        return if hi1 <= lo { Chunk::Empty } else { Chunk::Piece(lo, hi1 - 1) };
+    }
+    match crate::util::parse_range(spec) {
+        Some((lo, hi)) if lo <= hi && hi <= last => Chunk::Piece(lo, hi),
+        Some(_) => Chunk::Empty,
+        None => Chunk::Bad,
+    }
+}
+
 fn parse_stmts(stmts: &str) -> Option<Vec<(String, Vec<rusqlite::types::Value>)>> {
     stmts.split(';').map(stmt_sql).collect()
 }
@@ -206,7 +281,8 @@ impl World {
             .api_addr("127.0.0.1:0".parse().unwrap())
             .build()
             .map_err(hard("config"))?;
-        let (agent, opts) = setup(conf, tripwire.clone()).await.map_err(hard("setup"))?;
+        install_watch();
+        let (agent, mut opts) = setup(conf, tripwire.clone()).await.map_err(hard("setup"))?;
         if agent.actor_id() != ActorId::from_bytes(site_id(0)) {
             return Err(Fail::Hard("agent did not keep the pre-created site id".into()));
         }
@@ -219,6 +295,11 @@ impl World {
             let mut w = bookie.write::<&str, _>("init", None).await;
             w.insert(agent.actor_id(), agent.booked().clone());
         }
+        // the background loops of run_root.rs that the chunked path needs
+        let rx_apply = std::mem::replace(&mut opts.rx_apply, klukai_types::channel::bounded(1, "c14-unused-apply").1);
+        let rx_clear_buf = std::mem::replace(&mut opts.rx_clear_buf, klukai_types::channel::bounded(1, "c14-unused-clear").1);
+        tokio::spawn(clear_buffered_meta_loop(agent.clone(), rx_clear_buf));
+        tokio::spawn(apply_fully_buffered_changes_loop(agent.clone(), bookie.clone(), rx_apply, tripwire.clone()));
         let peer = open_plain_db(dir.path(), 1).map_err(hard("peer db"))?;
         Ok(World {
             _dir: dir,
@@ -232,6 +313,8 @@ impl World {
             held: BTreeMap::new(),
             pending: BTreeSet::new(),
             peer_log: BTreeMap::new(),
+            peer_known: BTreeSet::new(),
+            peer_chunks: BTreeMap::new(),
             drains: 0,
             events: vec![],
             reported: 0,
@@ -585,11 +668,123 @@ impl World {
         process_multiple_changes(self.agent.clone(), self.bookie.clone(), batch, Duration::from_secs(60))
             .await
             .map_err(hard("process_multiple_changes"))?;
+        for v in &vs {
+            self.peer_known.insert(*v);
+            self.peer_chunks.remove(v);
+        }
         let after = self.snapshot().await?;
         self.note_changes(&before, &after, at);
         self.tags.insert("remote-apply".into());
         self.pump()?;
         Ok("ok".into())
+    }
+
+    /// (the version's partial entry: Some(is it complete) | None, does the bookkeeping know the version) of the
+    /// peer, from the real `Bookie`
+    async fn peer_booked(&self, v: u64) -> R<(Option<bool>, bool)> {
+        let actor = ActorId::from_bytes(site_id(1));
+        let booked = { self.bookie.read::<&str, _>("c14(peer_booked)", None).await.get(&actor).cloned() };
+        let Some(booked) = booked else { return Ok((None, false)) };
+        let bv = booked.read::<&str, _>("c14(peer_booked)", None).await;
+        Ok((bv.partials.get(&CrsqlDbVersion(v)).map(|p| p.is_complete()), bv.contains_version(&CrsqlDbVersion(v))))
+    }
+
+    async fn op_rc(&mut self, v: u64, specs: &str) -> R<String> {
+        let Some(h) = self.peer_log.get(&v) else { return Ok("err no-such-version".into()) };
+        let last = h.last_seq.0;
+        let specs = crate::util::split_list(specs);
+        if specs.is_empty() {
+            return Ok("bad-op".into());
+        }
+        let mut pieces = vec![];
+        let mut empty = false;
+        for sp in &specs {
+            match chunk_spec(sp, last) {
+                Chunk::Bad => return Ok("bad-op".into()),
+                Chunk::Empty => empty = true,
+                Chunk::Piece(lo, hi) => pieces.push((lo, hi)),
+            }
+        }
+        if empty {
+            return Ok("err empty-chunk".into());
+        }
+        self.db_ops = true;
+        let before = self.snapshot().await?;
+        let at = self.events.len();
+        let peer_actor = ActorId::from_bytes(site_id(1));
+        let batch: Vec<(ChangeV1, ChangeSource, Instant)> = pieces
+            .iter()
+            .map(|(lo, hi)| {
+                (
+                    ChangeV1 {
+                        actor_id: peer_actor,
+                        changeset: Changeset::Full {
+                            version: CrsqlDbVersion(v),
+                            changes: h.changes.iter().filter(|c| c.seq.0 >= *lo && c.seq.0 <= *hi).cloned().collect(),
+                            seqs: CrsqlSeq(*lo)..=CrsqlSeq(*hi),
+                            last_seq: h.last_seq,
+                            ts: h.ts,
+                        },
+                    },
+                    ChangeSource::Broadcast,
+                    Instant::now(),
+                )
+            })
+            .collect();
+        // what is expected to happen (independent of the model: plain coverage of 0..=last)
+        let covered = |rs: &Vec<(u64, u64)>| (0..=last).all(|s| rs.iter().any(|r| r.0 <= s && s <= r.1));
+        let mut expect_apply = false;
+        if !self.peer_known.contains(&v) {
+            for (lo, hi) in &pieces {
+                let rs = self.peer_chunks.entry(v).or_default();
+                if covered(rs) {
+                    break;
+                }
+                if *lo == 0 && *hi == last {
+                    self.peer_known.insert(v);
+                    self.peer_chunks.remove(&v);
+                    break;
+                }
+                rs.push((*lo, *hi));
+            }
+            if !self.peer_known.contains(&v) && covered(self.peer_chunks.get(&v).unwrap_or(&vec![])) {
+                expect_apply = true;
+            }
+        }
+        let done_before = applies_done();
+        process_multiple_changes(self.agent.clone(), self.bookie.clone(), batch, Duration::from_secs(60))
+            .await
+            .map_err(hard("process_multiple_changes"))?;
+        if expect_apply {
+            // the trigger is on its way to the real apply loop: wait until process_fully_buffered_changes has returned
+            let deadline = Instant::now() + WAIT;
+            while applies_done() == done_before {
+                if Instant::now() > deadline {
+                    return Err(Fail::Hard(format!("fully buffered version {v} was not applied by the background loop within {WAIT:?}")));
+                }
+                tokio::task::yield_now().await;
+                tokio::time::sleep(Duration::from_millis(1)).await; // polling interval of an observable condition
+            }
+            self.peer_known.insert(v);
+            self.peer_chunks.remove(&v);
+            self.tags.insert("remote-apply:buffered".into());
+        }
+        // cross-check with the real bookkeeping.  (As the code stands the in-memory partial of a version applied from
+        // the buffer stays behind, complete; a version applied or cleared as a whole drops it.)
+        let (partial, known) = self.peer_booked(v).await?;
+        let want_known = self.peer_known.contains(&v);
+        let fine = if want_known { known && partial != Some(false) } else { partial == Some(false) };
+        if !fine {
+            return Err(Fail::Hard(format!(
+                "bookkeeping of peer version {v} after `rc`: partial={partial:?} known={known}, expected {}",
+                if want_known { "known in whole" } else { "held as an incomplete partial" }
+            )));
+        }
+        let after = self.snapshot().await?;
+        self.note_changes(&before, &after, at);
+        self.tags.insert(format!("rc:pieces:{}", pieces.len().min(3)));
+        self.pump()?;
+        Ok(if want_known { "ok applied".into() } else { "ok buffered".into() })
     }
 
     async fn op_rows(&mut self) -> R<String> {
@@ -632,6 +827,10 @@ impl World {
             },
             ["pw", stmts] => self.op_pw(stmts),
             ["r", vs] => self.op_r(vs).await,
+            ["rc", v, specs] => match v.parse() {
+                Ok(v) => self.op_rc(v, specs).await,
+                _ => Ok("bad-op".into()),
+            },
             ["force"] => self.op_sync(consts().thr).await,
             ["drain"] => self.op_sync(1).await,
             ["rows"] => self.op_rows().await,
@@ -833,6 +1032,17 @@ fn gen_tx(rng: &mut Rng, db: &mut GenDb, keys: &[u64], val: &mut u64) -> (String
     (stmts.join(";"), Some(touched))
 }
 
+/// the generator's view of a peer version arriving here: a higher causal length replaces the row
+fn apply_peer(a: &mut GenDb, peer_versions: &[(u64, Vec<(u64, u64)>)], v: u64) {
+    if let Some((_, t)) = peer_versions.iter().find(|p| p.0 == v) {
+        for (k, cl) in t {
+            if *cl > a.cl.get(k).copied().unwrap_or(0) {
+                a.cl.insert(*k, *cl);
+            }
+        }
+    }
+}
+
 fn gen_db_case(rng: &mut Rng, c: Consts, dl: u64) -> Vec<String> {
     let nkeys = rng.range(1, 4);
     let keys: Vec<u64> = (1..=nkeys).collect();
@@ -843,7 +1053,9 @@ fn gen_db_case(rng: &mut Rng, c: Consts, dl: u64) -> Vec<String> {
     let mut pending: Vec<u64> = vec![];
     let mut peer_versions: Vec<(u64, Vec<(u64, u64)>)> = vec![];
     let mut unapplied: Vec<u64> = vec![];
-    let remote = rng.chance(1, 2);
+    // peer versions being delivered in chunks: (version, chunk specs not yet sent)
+    let mut chunking: Vec<(u64, Vec<String>)> = vec![];
+    let remote = rng.chance(3, 5);
     // before the listener attaches: such rows are not in cl_cache (a stale candidate for them would not be
     // suppressed; regression case corpus/C14/remote_batch_spurious_candidate.ops, repo commit 80d703f)
     let pre = rng.chance(1, 4);
@@ -861,14 +1073,27 @@ fn gen_db_case(rng: &mut Rng, c: Consts, dl: u64) -> Vec<String> {
         ops.push("force".into());
         synced = true;
     }
-    let n = rng.range(4, 13);
+    let n = if remote { rng.range(6, 16) } else { rng.range(4, 13) };
     let sync_at = if synced { usize::MAX } else { rng.range(1, 4) as usize };
     for i in 0..n as usize {
         if !synced && i == sync_at {
             ops.push(if first >= dl { "drain".into() } else { "force".into() });
             synced = true;
         }
-        match rng.below(20) {
+        // with a peer: more than half of the ops are peer writes and deliveries (whole or in chunks)
+        let roll = if remote {
+            match rng.below(25) {
+                0..=4 => 0,
+                5..=8 => 6,
+                9 | 10 => 11,
+                11..=15 => 14,
+                16..=22 => 16,
+                _ => 19,
+            }
+        } else {
+            rng.below(20)
+        };
+        match roll {
             0..=5 => {
                 let (s, _) = gen_tx(rng, &mut a, &keys, &mut val);
                 ops.push(format!("w {s}"));
@@ -885,7 +1110,7 @@ fn gen_db_case(rng: &mut Rng, c: Consts, dl: u64) -> Vec<String> {
                 let v = pending.remove(i);
                 ops.push(if rng.chance(2, 3) { format!("notifyc {v}") } else { format!("notify {v}") });
             }
-            14..=16 if remote => {
+            14 | 15 if remote => {
                 let (s, t) = gen_tx(rng, &mut b, &keys, &mut val);
                 ops.push(format!("pw {s}"));
                 if let Some(t) = t {
@@ -893,28 +1118,46 @@ fn gen_db_case(rng: &mut Rng, c: Consts, dl: u64) -> Vec<String> {
                     unapplied.push(b.ver);
                 }
             }
-            17 | 18 if remote && !unapplied.is_empty() => {
-                // a subset of the peer's versions, in any order, sometimes one that was applied before
-                let mut pickn = rng.range(1, unapplied.len() as u64) as usize;
-                let mut vs = vec![];
-                rng.shuffle(&mut unapplied);
-                while pickn > 0 {
-                    vs.push(unapplied.pop().unwrap());
-                    pickn -= 1;
-                }
-                if rng.chance(1, 6) && !peer_versions.is_empty() {
-                    vs.push(rng.pick(&peer_versions).0);
-                }
-                for v in &vs {
-                    if let Some((_, t)) = peer_versions.iter().find(|p| p.0 == *v) {
-                        for (k, cl) in t {
-                            if *cl > a.cl.get(k).copied().unwrap_or(0) {
-                                a.cl.insert(*k, *cl);
-                            }
-                        }
+            16..=18 if remote && (!unapplied.is_empty() || !chunking.is_empty()) => {
+                let chunked = !chunking.is_empty() && (unapplied.is_empty() || rng.chance(1, 2)) || (!unapplied.is_empty() && rng.chance(1, 2));
+                if chunked {
+                    // one peer version in 2-3 chunks, any order, the chunks spread over several ops so that other
+                    // writes to the same keys (local, or newer peer versions) land before the last chunk arrives
+                    if chunking.is_empty() || (!unapplied.is_empty() && rng.chance(1, 3)) {
+                        let i = rng.below(unapplied.len() as u64) as usize;
+                        let v = unapplied.remove(i);
+                        let n = rng.range(2, 3);
+                        let mut specs: Vec<String> = (0..n).map(|k| format!("p{k}of{n}")).collect();
+                        rng.shuffle(&mut specs);
+                        chunking.push((v, specs));
                     }
+                    let i = rng.below(chunking.len() as u64) as usize;
+                    let take = if rng.chance(1, 4) { 2 } else { 1 }.min(chunking[i].1.len());
+                    let v = chunking[i].0;
+                    let pieces: Vec<String> = (0..take).map(|_| chunking[i].1.pop().unwrap()).collect();
+                    ops.push(format!("rc {v} {}", pieces.join(",")));
+                    if chunking[i].1.is_empty() {
+                        chunking.remove(i);
+                        apply_peer(&mut a, &peer_versions, v);
+                    }
+                } else {
+                    // a subset of the peer's versions, in any order, sometimes one that was applied before or one
+                    // that is partly buffered (the whole version then supersedes the buffered copy)
+                    let mut pickn = rng.range(1, unapplied.len() as u64) as usize;
+                    let mut vs = vec![];
+                    rng.shuffle(&mut unapplied);
+                    while pickn > 0 {
+                        vs.push(unapplied.pop().unwrap());
+                        pickn -= 1;
+                    }
+                    if rng.chance(1, 6) && !peer_versions.is_empty() {
+                        vs.push(rng.pick(&peer_versions).0);
+                    }
+                    for v in &vs {
+                        apply_peer(&mut a, &peer_versions, *v);
+                    }
+                    ops.push(format!("r {}", vs.iter().map(|v| v.to_string()).collect::<Vec<_>>().join(",")));
                 }
-                ops.push(format!("r {}", vs.iter().map(|v| v.to_string()).collect::<Vec<_>>().join(",")));
             }
             19 if synced => ops.push("drain".into()),
             _ => {
@@ -927,6 +1170,15 @@ fn gen_db_case(rng: &mut Rng, c: Consts, dl: u64) -> Vec<String> {
     rng.shuffle(&mut pending);
     for v in pending {
         ops.push(if rng.chance(1, 2) { format!("notifyc {v}") } else { format!("notify {v}") });
+    }
+    // the chunks that are still missing (mostly), then what was never sent
+    if rng.chance(4, 5) {
+        rng.shuffle(&mut chunking);
+        for (v, mut specs) in chunking {
+            while let Some(sp) = specs.pop() {
+                ops.push(format!("rc {v} {sp}"));
+            }
+        }
     }
     if remote && !unapplied.is_empty() && rng.chance(2, 3) {
         rng.shuffle(&mut unapplied);
